@@ -45,7 +45,7 @@ def budget(tier):
 def strategy(tier):
     return st.builds(
         lambda g, f, a, b, cache, cp: {"g": g, "f": f, "unlink": [a % g["nv"], b % g["nv"]], "cache": cache, "copy": cp},
-        st.one_of(graphs.graph_descs(), graphs.graph_descs(classes=12, wide=True), graphs.graph_descs(classes=12, wide=True, min_v=2, min_e=2), graphs.eq_graph_descs()),
+        st.one_of(graphs.graph_descs(), graphs.graph_descs(classes=12, wide=True), graphs.with_scale(graphs.graph_descs(classes=12, wide=True, min_v=2, min_e=2), hubs=(65, 70), chains=(), rate=40), graphs.eq_graph_descs()),
         graphs.edge_filter_specs,
         st.integers(0, 7),
         st.integers(0, 7),
@@ -79,12 +79,21 @@ def enumerate_cases(tier, shard=0, nshards=1):
     )
 
 
-def fl_table(vs, ls, ff1, li):
+def pair_indices(case, vs):
+    """All vertices of a small world; for a scaled-up one the original vertices plus a few of the added ones."""
+    if len(vs) <= 16:
+        return list(range(len(vs)))
+    nv0 = case["g"]["nv"]
+    return list(range(nv0)) + [nv0, nv0 + 1, nv0 + 4, len(vs) - 1]
+
+
+def fl_table(vs, ls, ff1, li, idx=None):
     from edgegraph.traversal import helpers
 
     t = {}
-    for a in range(len(vs)):
-        for b in range(len(vs)):
+    idx = range(len(vs)) if idx is None else idx
+    for a in idx:
+        for b in idx:
             for ds in (True, False):
                 for u in UNKS:
                     try:
@@ -148,9 +157,10 @@ def _check_world(case, vs, ls, query_only):
                     helpers.neighbors(v, d, 1)
                 except NotImplementedError:
                     pass
-    table = fl_table(vs, ls, ff1, li)
-    for a in range(n):
-        for b in range(n):
+    idx = pair_indices(case, vs)
+    table = fl_table(vs, ls, ff1, li, idx)
+    for a in idx:
+        for b in idx:
             joining = [l for l in G.links_of[a] if (G.link[l][2] if G.link[l][1] == a else G.link[l][1]) == b]
             if len({(G.link[l][0], G.link[l][1]) for l in joining}) >= 2:
                 nt = True
@@ -200,7 +210,7 @@ def _check_world(case, vs, ls, query_only):
         explicit.unlink(vs[a], vs[b])
     except Exception as e:  # noqa
         raise Violation("unlink-raised", f"unlink(v{a}, v{b}): {e!r}")
-    after = fl_table(vs, ls, ff1, li)
+    after = fl_table(vs, ls, ff1, li, idx)
     for (x, y, ds, u), got in after.items():
         if {x, y} == {a, b}:
             require(got != "NIE", "find_links-raises-after-unlink", f"find_links(v{x}, v{y}, {ds}, {u}) raised after unlink(v{a}, v{b})")
